@@ -473,6 +473,22 @@ impl Prop for C10 {
         let mut c = build_cli_case(ch, cx, 4, true);
         c.opts.dry_run = true;
         c.opts.verbosity = ch.pick(&["-q", "", "-v", "-vv"]).to_string();
+        // a patch file behind the failing patch that cannot be loaded: a parallel run (dry or real) loads everything
+        // first and reports that, a single-threaded one stops at the failing patch - the dry run must predict either
+        if let Some(j) = c.ws.fail_at {
+            if j + 1 < c.ws.metas.len() && ch.chance(1, 5) {
+                let k = ch.range(j + 1, c.ws.metas.len() - 1);
+                let name = c.ws.metas[k].name.clone();
+                if ch.chance(1, 2) {
+                    c.ws.spec.patches.retain(|(nm, _)| nm != &name);
+                } else {
+                    for p in c.ws.spec.patches.iter_mut().filter(|(nm, _)| nm == &name) {
+                        p.1 = crate::bytes::B::new("--- a/x\n+++ b/x\n@@ -1 +1 @@\n-a\n");
+                    }
+                }
+                c.ws.feat.push("unloadable-patch-behind-the-failing-one".into());
+            }
+        }
         // what an earlier, undone push may have left behind: .pc/<patch>/ directories of patches that are not applied
         if ch.chance(1, 3) {
             for m in &c.ws.metas {
